@@ -179,3 +179,6 @@ func fileContent(id int) []byte {
 }
 
 const putFailMarker = "PUTFAIL"
+
+// readlinkFailTarget: with fault injection on, Readlink fails for symlinks with this target.
+const readlinkFailTarget = "RLFAIL"
